@@ -1,4 +1,5 @@
 import Ecal.Lemmas.DebugCmdSafe
+import Ecal.Lemmas.DebugCmdNoEval
 import Ecal.Gen.C16
 /-!
 # C16 — the debugger command interface is total
@@ -75,6 +76,31 @@ theorem handle_never_panics (env : Env) (s : DbgState) (line : Str) (h : Inv s) 
     · simp [h2, ho, Answers]
   · right
     simp only [handle, handleG, hr]
+
+/-- **A command that does not return is `inject` evaluating an expression that does not return**:
+    if no expression diverges (the oracle never answers `diverges`), no reply is `evaluating` —
+    for either version of the guards, in every state. Together with `handle_never_panics`: every
+    command then returns a result or an error. -/
+theorem evaluating_only_if_diverges (g : Guards) (env : Env) (s : DbgState) (line : Str)
+    (ht : ∀ e, env.eval e ≠ .diverges) : (handleG g env s line).2 ≠ .evaluating := by
+  have h := noEval_handleInput g env line ht s
+  unfold handleG
+  cases hr : handleInput g env line s with
+  | ok o s' =>
+    simp only [Out.reply]
+    split
+    · simp
+    · split <;> simp
+  | panic p s' => simp
+  | deadlock s' => simp
+  | evaluating s' => exact (h s' hr).elim
+
+/-- every command returns a result or an error when the `inject` expressions terminate -/
+theorem handle_answers_if_terminating (env : Env) (s : DbgState) (line : Str) (h : Inv s)
+    (ht : ∀ e, env.eval e ≠ .diverges) : Answers (handle env s line).2 := by
+  rcases handle_never_panics env s line h with h1 | h1
+  · exact h1
+  · exact (evaluating_only_if_diverges repaired env s line ht h1).elim
 
 /-- Every command preserves the invariant. -/
 theorem handle_preserves_inv (env : Env) (s : DbgState) (line : Str) (h : Inv s) :
